@@ -56,14 +56,14 @@ SPECS = {
 }
 
 TIERS = {
-    "quick": dict(count=400, max_ops=50, max_sess=7, seeds=1),
-    "thorough": dict(count=4000, max_ops=90, max_sess=10, seeds=3),
+    "quick": dict(count=400, max_ops=50, max_sess=7, seeds=1, kernel_cases=12),
+    "thorough": dict(count=4000, max_ops=90, max_sess=10, seeds=3, kernel_cases=150),
 }
 
 
-def run_batch(binp, model, profile, seed, count, max_ops, max_sess, corpus, check_sizes, out):
+def run_batch(binp, model, profile, seed, count, max_ops, max_sess, corpus, check_sizes, out, transcripts=0):
     params = dict(profile=profile, seed=seed, count=count, max_ops=max_ops, max_sess=max_sess, model=model,
-                  out=out, workers=common.NPROC, check_sizes=check_sizes, shrink=True, corpus=corpus)
+                  out=out, workers=common.NPROC, check_sizes=check_sizes, shrink=True, corpus=corpus, transcripts=transcripts)
     env = common.go_env()
     env["DRIVE_PARAMS"] = json.dumps(params)
     for f in glob.glob(out + ".running.*"):
@@ -159,6 +159,7 @@ def main(pid, tier, replay_path=None):
 
     stats_all = dict(scenarios=0, ops=0, distinct=0, nontrivial=0, op_kinds={}, delivered={}, tags={}, foreign_mismatches=0, sessions=0)
     samples = []
+    transcripts = []
     n_fail = 0
     if binp:
         corpus = sorted(glob.glob(os.path.join(common.VERIF, "corpus", pid, "*.json")))
@@ -168,7 +169,10 @@ def main(pid, tier, replay_path=None):
                 if os.path.exists(out):
                     os.remove(out)
                 res, log = run_batch(binp, model, profile, common.seed() * 1000 + si, tcfg["count"] // len(spec["profiles"]),
-                                     tcfg["max_ops"], tcfg["max_sess"], corpus if si == 0 else [], spec["sizes"], out)
+                                     tcfg["max_ops"], tcfg["max_sess"], corpus if si == 0 else [], spec["sizes"], out,
+                                     transcripts=tcfg["kernel_cases"] if si == 0 else 0)
+                if res is not None and res.get("transcripts"):
+                    transcripts += res["transcripts"]
                 if res is None or res.get("stats") is None:
                     crashed = (res or {}).get("crashed") or []
                     for c in crashed[:3]:
@@ -219,6 +223,19 @@ def main(pid, tier, replay_path=None):
                         v.finding(sig, dict(scenario=f["scenario"], mismatch=mm, monitors=mons, corpus=f.get("corpus"),
                                             how_to_replay="./check %s --replay <this file>" % pid), what)
 
+    # 3b. in-kernel replay of a sample: the extracted runner's outputs are
+    # re-computed by vm_compute from the same operations
+    kernel = dict(cases=0, steps=0, ok=None)
+    if transcripts:
+        import router_cases
+        okc, _ = common.coq_make(["Router/CaseCheck.vo"])
+        kernel["cases"] = router_cases.write_cases(transcripts, max_cases=tcfg["kernel_cases"])
+        okk, steps, klog = router_cases.check_cases()
+        kernel.update(ok=bool(okc and okk), steps=steps)
+        if not (okc and okk):
+            broken.append(dict(kind="extraction-vs-kernel", detail=klog[-1500:]))
+        common.info("%s [%.1fs] in-kernel replay: %d cases, %d steps, ok=%s" % (pid, t.s(), kernel["cases"], steps, okc and okk))
+
     # 4. broken obligation / tie without a failing history
     if broken and v.violations == 0 and v.known == 0:
         v.violation(dict(broken=broken, searched=dict(histories=stats_all["scenarios"], ops=stats_all["ops"]),
@@ -232,7 +249,7 @@ def main(pid, tier, replay_path=None):
                ops=stats_all["ops"], sessions=stats_all["sessions"], op_kinds=stats_all["op_kinds"],
                delivered_by_message_code=stats_all["delivered"], shape_templates_fired=stats_all["tags"],
                foreign_mismatches=stats_all["foreign_mismatches"], traces_validated_against_impl=stats_all["scenarios"],
-               exhaustive=False, failures=n_fail, broken=broken)
+               exhaustive=False, failures=n_fail, broken=broken, in_kernel_replay=kernel)
     common.write_evidence(pid, tier, "proof", cov, t.s(), violations=v.violations,
                           assumptions=["all client queues are drained (queue overflow is C07's subject)",
                                        "one client-side event at a time, router run to quiescence (interleavings inside the router are C08's subject)"])
